@@ -209,6 +209,31 @@ def property_checks(inp):
             fresh.make_covariance_matrix(); Rfr = numpy.asarray(fresh.make_tomographic_reconstructor(svd_conditioning=1e-3))
         A(("reconstructor of a re-used, re-pointed object = reconstructor of a fresh object with the current parameters",
            0.0 if numpy.array_equal(Rre, Rfr, equal_nan=True) else float(numpy.nanmax(numpy.abs(Rre - Rfr)) / max(float(numpy.nanmax(numpy.abs(Rfr))), 1e-300) + 1e-30), 0.0))
+    # the number of on-axis sub-apertures given as a 0-d integer array (a value loaded from a file) and re-used for several calls;
+    # and the on-axis auto-covariance block, which the normal equations never use, filled with huge / non-finite numbers
+    try:
+        g_ = numpy.random.default_rng(inp["data_seed"])
+        n_on, n_off = 2, 5
+        Bm = g_.normal(size=(2 * (n_on + n_off), 30)); Cm = (Bm @ Bm.T).astype(numpy.float32)
+        k0 = numpy.array(n_on)
+        R_a = sc.create_tomographic_covariance_reconstructor(Cm.copy(), k0, 1e-6)
+        R_b = sc.create_tomographic_covariance_reconstructor(Cm.copy(), k0, 1e-6)
+        R_c = sc.create_tomographic_covariance_reconstructor(Cm.copy(), n_on, 1e-6)
+        ok_ = int(k0) == n_on and R_a.shape == R_c.shape and R_b.shape == R_c.shape and numpy.array_equal(R_a, R_c) and numpy.array_equal(R_b, R_c)
+        A(("an index given as a 0-d integer array is not changed and gives the same reconstructor on every call", 0.0 if ok_ else 1.0, 0.0))
+        worst_on = 0.0
+        for fill in (1e30, numpy.inf, numpy.nan):
+            C2 = Cm.astype(float).copy(); C2[:2 * n_on, :2 * n_on] = fill
+            with warnings.catch_warnings():
+                warnings.simplefilter("ignore")
+                try:
+                    R2_ = sc.create_tomographic_covariance_reconstructor(C2, n_on, 1e-6)
+                    worst_on = max(worst_on, float(numpy.nanmax(numpy.abs(R2_ - sc.create_tomographic_covariance_reconstructor(Cm.astype(float), n_on, 1e-6)))) if numpy.all(numpy.isfinite(R2_)) else float("inf"))
+                except Exception:
+                    worst_on = float("inf")
+        A(("the reconstructor does not depend on the on-axis auto-covariance block (huge, infinite or NaN entries there)", worst_on, 1e-9))
+    except Exception as ex:
+        A(("raised %s in the index / on-axis-block clauses" % type(ex).__name__, float("inf"), 0.0))
     return out
 
 
